@@ -459,6 +459,13 @@ fn ensure_leaf_batch_compatible(proofs: &[ProofWithPublicInputs<F, C, D>]) -> Re
     Ok(())
 }
 
+/// Verification hook: exposes the commit-time compatibility preflight to /verif's replay harness.
+/// Off unless `--features verif-hooks`.
+#[cfg(feature = "verif-hooks")]
+pub fn verif_ensure_leaf_batch_compatible(proofs: &[ProofWithPublicInputs<F, C, D>]) -> Result<()> {
+    ensure_leaf_batch_compatible(proofs)
+}
+
 /// Verify that the dummy leaf proof template is a valid leaf proof carrying the
 /// strong dummy sentinel: `block_hash == 0`, both output amounts zero,
 /// `asset_id == 0`, AND both exit accounts all-zero.
